@@ -747,6 +747,9 @@ ExitStatus Builder::Build(string* err) {
         }
 
         if (!StartEdge(edge, err)) {
+          // Give back the job slot FindWork() acquired for this edge.
+          if (jobserver_.get())
+            jobserver_->Release(std::move(edge->job_slot_));
           Cleanup();
           status_->BuildFinished();
           return ExitFailure;
